@@ -20,9 +20,10 @@ status
   "help"         -h/--help among fakesnow's own options: argparse prints help and exits, no target runs.
   "malformed"    argparse would exit with a usage error on fakesnow's part of the line (unknown option among the
                  leading options; an option that needs a value is last or is followed by an option-like token;
-                 -hVALUE).
+                 --help=VALUE).
   "unspecified"  forms whose treatment differs between argparse versions or is not fixed by the option table:
-                 `--` followed by an option-like token, `-d=VALUE` / `-m=VALUE`. Nothing specific is expected.
+                 `--` followed by an option-like token, `-d=VALUE` / `-m=VALUE`, `-hXYZ` clusters. Nothing specific
+                 is expected.
 
 Token classification (argparse `_parse_optional`, parser without negative-number-like options): a token is an
 *argument* if it is empty, does not start with '-', is exactly '-', looks like a negative number, or contains a
